@@ -74,6 +74,16 @@ Theorem normalize_steps_in_input_class : forall fuel d left tr, wf d ->
 Proof. exact normalize_equiv. Qed.
 Print Assumptions normalize_steps_in_input_class.
 
+(* reduction of canonicity: it follows from uniqueness of normal diagrams inside the
+   input's class (the confluence statement that is NOT proved here) *)
+Theorem canonicity_reduces_to_unique_normal_in_class : forall d d' left fuel fuel' n n',
+  (forall a b, interchanger_equiv d a -> interchanger_equiv d b ->
+     is_normal a left -> is_normal b left -> a = b) ->
+  interchanger_equiv d d' ->
+  normal_form fuel d left = Ok n -> normal_form fuel' d' left = Ok n' -> n = n'.
+Proof. exact normal_form_canonical_if_unique_normal. Qed.
+Print Assumptions canonicity_reduces_to_unique_normal_in_class.
+
 (* ---- PARTIAL: the statements below are NOT asserted (no confluence / termination
    proof of the interchanger rewriting system, arXiv:1804.07832, in this development).
    The check stands in for them with an exhaustive search of interchanger classes. *)
